@@ -305,6 +305,6 @@ func runC16(c *core.Ctx) {
 	c.Rule("R6", "the text/JSON codecs' inputs are intact: collectors copy what they are written, the delimiter decoder compares the whole delimiter (shared with C14-R5, C04-R5)", 2)
 	importObligations(c, runC14, "R6", func(o *core.Obligation) bool { return o.Rule == "R5" })
 	importObligations(c, runC04, "R6", func(o *core.Obligation) bool { return o.Rule == "R5" })
-	importObligations(c, runC08, "R6", func(o *core.Obligation) bool { return o.Rule == "R7" })
+	importObligations(c, runC08, "R6", func(o *core.Obligation) bool { return o.Rule == "R7" || o.Rule == "R6" || o.Rule == "R3" })
 	importObligations(c, runC10, "R6", func(o *core.Obligation) bool { return o.Rule == "R1" || o.Rule == "R8" })
 }
